@@ -480,6 +480,22 @@ def _check_moved(rec, evs, acc, late_bound, end_phys, starved, label):
             acc.violation(f'C08/not-woken-in-time/{ck}/moved-task',
                           {'rec': _rec_repr(rec), 'where': label})
         return
+    if after and not before and not amb:
+        # moved while pending: bounded progress counts from the move (a clock
+        # asleep on the old deadline has to be told about the new, earlier one)
+        if ck == 'TempoClock':
+            due = m['c1'] + m['val'] * 2.0       # slowest tempo used: 0.5
+        else:
+            due = max(after[0][5], m['c1'])
+        late = after[0][4] - due
+        acc.count('moved_lateness_checked')
+        if late > late_bound:
+            if starved:
+                acc.count('late_ignored_starved')
+            else:
+                acc.violation(f'C08/late-wakeup/{ck}/moved-task',
+                              {'rec': _rec_repr(rec), 'late_s': late, 'move': m,
+                               'where': label})
     if after and ck != 'TempoClock':
         S = after[0][5]
         if not before and not amb:
@@ -1190,10 +1206,15 @@ def move_case(h, acc, clock, ck, rng, rnd):
     single = [{'ret': None}]
     earlier = rng.random() < 0.6
     t_x, t_move = (0.3, 0.1) if earlier else (0.1, 0.3)
+    # far: x is the head of the queue with a distant deadline, the clock sleeps
+    # on it, then the same object is scheduled again for (almost) now
+    far = rnd % 2 == 1
+    if far:
+        earlier, t_x, t_move = True, 30.0, 0.1
     x = h.do_sched(clock, 'rel', t_x, single, 'tk', ('thread', 'mv'))
     others = [h.do_sched(clock, 'rel', rng.choice([0.05, 0.2, 0.35]), single, 'tk',
-                         ('thread', 'mv')) for _ in range(rng.randint(0, 3))]
-    time.sleep(rng.choice([0, 0.01]))
+                         ('thread', 'mv')) for _ in range(0 if far else rng.randint(0, 3))]
+    time.sleep(0.05 if far else rng.choice([0, 0.01]))
     h.do_move(x, t_move)
     if rng.random() < 0.5:
         h.do_move(others[0], 0.25) if others else None
@@ -1204,7 +1225,8 @@ def move_case(h, acc, clock, ck, rng, rnd):
     starved = h.watch.max_oversleep > 0.25 or h.watch.max_step > 0.05
     analyze(h, acc, 0.6, h.main.elapsed_time(), starved=starved, label='move')
     acc.count('move_cases')
-    acc.case(h64(('move', ck, rnd, earlier)), nontrivial=True)
+    acc.count('move_cases_head_moved_earlier', int(far))
+    acc.case(h64(('move', ck, rnd, earlier, far)), nontrivial=True)
 
 
 def tempo_hammer_case(h, acc, rng, vid):
